@@ -11,7 +11,7 @@ from hypothesis import strategies as st
 from pv.core import Sub, EnumSub, Violation, call, call_or, must_raise, check, short
 
 ASSUMPTIONS = [
-    'containers are list / tuple / dict / Dict / dictattr with string keys (what loop(list, tuple, dict) lifts over), depth <= 4, container sizes 0-3; "same shape" includes the key order of dicts',
+    'containers are list / tuple / dict / Dict / dictattr with string keys or (homogeneous) integer keys (what loop(list, tuple, dict) lifts over), depth <= 4, container sizes 0-3; "same shape" includes the key order of dicts',
     'different-shape companions are flat lists of 4-5 scalars, or dicts with scalar values over foreign keys or over any subset of the key alphabet (matched where the key sets coincide, broadcast elsewhere): the documented '
     '"re-match deeper" rule of _item_by_i/_item_by_key then cannot fire by accident and plain broadcasting is the only reading',
     'same-shape companions mirror the structure to depth k and are scalars below; no companion is named "axis" (a keyword the decorator consumes)',
@@ -47,7 +47,8 @@ def _tree(draw, d, leaf=None):
     t = draw(st.sampled_from(['list', 'list', 'tuple', 'dict', 'dict', 'Dict', 'dictattr']))
     if t in ('list', 'tuple'):
         return [t, kids]
-    keys = draw(st.permutations(_KEYS))[:n]
+    # integer keys whose numeric order differs from their string order (2 < 10 but '10' < '2') in a share of the dicts
+    keys = draw(st.permutations(draw(st.sampled_from([_KEYS, _KEYS, _KEYS, [2, 10, 5], [-1, 10, 3]]))))[:n]
     return [t, [[k, v] for k, v in zip(keys, kids)]]
 
 
@@ -221,6 +222,17 @@ def run_lift(spec):
         cls.append('depth>=2_positional_same_shape')
     if len(tags) >= 2:
         cls.append('mixed_container_types')
+
+    def _int_keys(s):
+        if s[0] == 'leaf':
+            return False
+        if s[0] in ('list', 'tuple'):
+            return any(_int_keys(k) for k in s[1])
+        return any(isinstance(k, int) for k, _ in s[1]) or any(_int_keys(v) for _, v in s[1])
+    if _int_keys(s):
+        cls.append('integer_dict_keys')
+        if any(c['kind'].startswith('same') for c in spec['comps']):
+            cls.append('integer_dict_keys_with_same_shape_companion')
     return dict(nt=(d >= 2 and pos_same) or len(tags) >= 2, cls=cls)
 
 
@@ -499,7 +511,7 @@ SUBS = [
         rule='nested list/tuple/dict/Dict/dictattr structures (depth <= 4) with 0-2 companions (scalar, same shape to full or partial depth, flat list of other length, '
              'dict over other keys), each positional or by keyword, first argument positional or by keyword; oracle: recursive leaf-map model, exact container types. '
              'non-trivial = depth >= 2 with a same-shape positional companion, or mixed container types',
-        floor=0.2, class_floors={'depth>=2_positional_same_shape': 0.08, 'first_by_keyword': 0.05, 'container_of_40+': 0.03}),
+        floor=0.2, class_floors={'depth>=2_positional_same_shape': 0.08, 'first_by_keyword': 0.05, 'container_of_40+': 0.03, 'integer_dict_keys_with_same_shape_companion': 0.03}),
     Sub('libfuncs', lambda tier: _lib_case(), run_lib, quick=2500, thorough=15000,
         rule='lower/upper/strip/proper/capitalize/f12/as_float/replace/split on nested structures with string, number and None leaves; oracle: result equals the structure '
              'with the function applied to every leaf on its own, and (where python has the method) the python string method at string leaves. non-trivial = depth >= 2',
